@@ -328,9 +328,13 @@ def rule_g(ctx):
   g = C.cfg_of(f.node)
   tests = {A.unparse(k.ast): k for k in g.nodes if k.kind == 'test'}
   # sequences: length test raises False before the element loop
-  k = tests.get('len(left) != len(right)')
-  ok = k is not None and any(m.kind == 'return' and A.unparse(m.ast.value) == 'False'
-                             for m, lab in k.succ if lab == 'true')
+  lts = [k for k in g.nodes if k.kind == 'test' and A.unparse(k.ast) == 'len(left) != len(right)'
+         and any(m.kind == 'return' and A.unparse(m.ast.value) == 'False' for m, lab in k.succ if lab == 'true')]
+  zl = [k for k in g.nodes if k.kind == 'iter' and A.unparse(k.ast.iter).replace(' ', '') == 'zip(left,right)']
+  ok = bool(lts) and bool(zl)
+  if ok:
+    seen, _ = g.reach(g.entry, blocked_nodes={k.id for k in lts}, follow_exc=False)
+    ok = not any(z.id in seen for z in zl)
   ctx.ob('C06.g', f.fq + '#sequence-length', ok,
          'sequences of different length are unequal (tested before the pairwise loop)', f.loc,
          'length test missing or no longer returns False')
